@@ -180,7 +180,13 @@ def gen_bt(rnd, count):
         ["S,50,1", "X", "BT,0,50,9.0/9.1/9.2,x"], ["S,50,1", "L", "BT,0,50,9.0/9.1,x"], ["S,50,1", "S,8,1", "X", "S,50,1", "BT,2,50,9.0/9.1/9.2,x", "D", "D"],
         ["S,50,1", "M,r,c0,1", "X", "BT,0,50,9.0/9.1,x"], ["S,50,1", "S,50,1", "M,r,c0,1", "X", "BT,1,50,9.0/9.1/9.2,x", "D", "D"],
         ["S,50,1", "F,0", "BT,0,50,9.0/9.1,x"], ["S,50,1", "C,0", "BT,0,50,9.0/9.049/9.050,x"], ["S,50,1", "F,0", "C,0", "D", "BT,0,50,9.0/9.1,x"],
-        ["S,50,1", "BT,0,50,9.0/9.1,x", "BT,0,50,9.0/9.1,x", "D"], ["S,50,1", "M,r,#9,1", "BT,0,50,9.0/9.010000/9.2,r:c0:5", "D"]]
+        ["S,50,1", "BT,0,50,9.0/9.1,x", "BT,0,50,9.0/9.1,x", "D"],
+        # the reply and the end of the stream in ONE read versus two reads: same completion
+        ["S,inf,1", "BT,0,inf,5.0/6.0,r:c0:1+x", "D", "D"], ["S,inf,1", "BT,0,inf,5.0/6.0/7.0,r:c0:1/x", "D", "D"],
+        ["S,50,1", "BT,0,50,5.0/5.01/5.02,e:c0:1+x", "D"], ["S,50,1", "BT,0,50,5.0/5.01/5.02,e:c0:1/x", "D"],
+        ["S,50,1", "S,inf,1", "BT,1,inf,5.0/6.0/7.0,r:c0:1+x", "D", "D", "D"], ["S,50,1", "S,inf,1", "BT,1,inf,5.0/6.0/7.0,r:c0:1/x", "D", "D", "D"],
+        ["S,50,1", "S,inf,1", "BT,1,inf,5.0/6.0/7.0,s:#0:3/r:c0:1+r:c1:2+x", "D", "D", "D"], ["S,inf,1", "M,r,c0,1", "X", "BT,0,inf,5.0/6.0,x"],
+        ["S,inf,1", "S,inf,1", "M,r,c0,1", "X", "BT,1,inf,5.0/6.0/7.0,x", "D", "D"], ["S,8,1", "S,inf,0", "BW,1,r:c1:1+x", "D", "D"], ["S,50,1", "M,r,#9,1", "BT,0,50,9.0/9.010000/9.2,r:c0:5", "D"]]
     out += [list(x) for x in fixed]
     for _ in range(count):
         n = rnd.randint(1, 3)
@@ -213,6 +219,9 @@ def gen_bt(rnd, count):
             if r < 0.3 and ms is not None: arr.append("-")
             elif r < 0.6: arr.append("%s:%s:%d" % (rnd.choice("sre"), rnd.choice(["#99"] + ["c%d" % j for j in range(n) if j != i] + ["#7"]), tag))
             else: arr.append("%s:c%d:%d" % (rnd.choice("rre"), i, tag))
+        if arr and arr[-1] != "-" and rnd.random() < 0.25:      # the peer closes: in the same write as the last batch, or in a write of its own
+            arr[-1] = arr[-1] + "+x" if rnd.random() < 0.5 else arr[-1]
+            if not arr[-1].endswith("+x"): arr.append("x")
         ev.append("BT,%d,%s,%s,%s" % (i, args[i], "/".join(norm_clock(c) for c in clocks), "/".join(arr) if arr else "x"))
         for _ in range(rnd.randint(0, 2)):
             ev.append(rnd.choice(("D", "R", "T,%d" % i)))
@@ -305,6 +314,7 @@ def oracle(events, line):
     serials = []
     peer_open = True
     connected = True
+    local_close = any(e == "L" for e in events)
     sent = {}           # tag -> (kind, rs)
     tag_used = {}
     for idx, (ev, (obs, st, disc)) in enumerate(zip(events, segs)):
@@ -348,6 +358,8 @@ def oracle(events, line):
                 for c in calls:
                     if c["serial"] == rs and not c["completed"] and not c["cancelled"]:
                         c["delivered"] = True
+                        if not c["fired"]:
+                            c["written"] = "%s%d.%s" % (f[1], rs, f[3])     # written by the peer while both ends were open
         elif f[0] in ("BW", "BT", "TT"):
             bi = int(f[1])
             spec = f[2] if f[0] == "BW" else f[4] if f[0] == "BT" else f[3]
@@ -364,7 +376,13 @@ def oracle(events, line):
                 calls[bi]["bt"] = True
             if peer_open and connected and spec != "x":
                 hit = False
+                closed_after_hit = False
                 for item in [x for x in spec.replace("/", "+").split("+") if x != "-"]:
+                    if item == "x":
+                        if hit:
+                            closed_after_hit = True
+                        peer_open = False
+                        break
                     k, tgt, tg = item.split(":")
                     rs = None
                     if tgt[0] == "c":
@@ -380,9 +398,10 @@ def oracle(events, line):
                             c["delivered"] = True
                     if bi < len(calls) and rs == calls[bi]["serial"]:
                         hit = True
-                # the waited-for reply does arrive, the connection stays open, no timeout can have expired:
+                # the waited-for reply does arrive (and if the peer closes, it closes after having written it, so the reply is
+                # read before the connection can learn of the disconnect); no timeout can have expired:
                 # the wait must end with a message from the peer, never with a locally made error
-                if hit and bi < len(calls) and not disc:
+                if hit and bi < len(calls) and (not disc or closed_after_hit):
                     c = calls[bi]
                     if not c["completed"] and not c["cancelled"] and not c["fired"] and (c["ms"] in ("inf", "2000") if f[0] == "BW" else c["ms"] == "inf"):
                         c["expect_peer"] = True
@@ -449,6 +468,10 @@ def oracle(events, line):
                 if got[0] == "N" and c.get("bt") and not c.get("bt_expired") and not c["fired"] and not c["cancelled"] and c.get("bt_conn"):
                     bad.append(("early-timeout", "call %s (timeout %s) was completed by a blocking wait with the timeout error although at no reading "
                                 "of the clock had its timeout expired" % (f[1], c["ms"])))
+                if got[0] in "NX" and c.get("written") and not c["fired"] and not c["cancelled"] and not local_close:
+                    bad.append(("violation", "call %s (serial %d) completed with the locally generated error %s although the peer had written its reply %s "
+                                "before it closed: the connection read that reply before it could learn of the disconnect (no timeout fired, "
+                                "not cancelled, no local close)" % (f[1], c["serial"], got, c["written"])))
                 if got[0] in "NX" and c.get("lost_reply"):
                     bad.append(("violation", "call %s completed with the local error %s although its reply %s had been read by the connection "
                                 "(and was handed to the filters)" % (f[1], got, c["lost_reply"])))
@@ -476,6 +499,8 @@ def oracle(events, line):
             continue
         if c.get("lost_reply"):
             bad.append(("violation", "call %d (serial %d) never completed although its reply %s had been read by the connection" % (i, c["serial"], c["lost_reply"])))
+        elif c.get("written") and not c["fired"] and not local_close:
+            bad.append(("violation", "call %d (serial %d) never completed although the peer had written its reply %s while both ends were open" % (i, c["serial"], c["written"])))
         elif not connected:
             bad.append(("strand", "call %d (serial %d) was outstanding when the connection closed and never completed" % (i, c["serial"])))
         elif c["fired"]:
